@@ -252,8 +252,6 @@ func c11(r *lp.Run) {
 				{"to-bool", func(c any) any { return setAt(c, p, true, false) }},
 				{"self-ref", func(c any) any { return setAt(c, p, map[string]any{"$ref": "#/" + joinPtr(p)}, false) }},
 				{"dangling-ref", func(c any) any { return setAt(c, p, map[string]any{"$ref": "#/nope/nope"}, false) }},
-				{"hostile-string", func(c any) any { return setAt(c, p, lp.Pick(rng, hostileStrings), false) }},
-				{"hostile-key", func(c any) any { return renameKeyAt(c, p, lp.Pick(rng, hostileStrings)) }},
 			}
 			for _, m := range muts {
 				c := m.f(cloneJSON(root))
@@ -261,13 +259,36 @@ func c11(r *lp.Run) {
 				if err != nil {
 					continue
 				}
-				c11Judge(r, b, fmt.Sprintf("%s: %s at /%s", base, m.name, joinPtr(p)))
+				c11Judge(r, b, nil, fmt.Sprintf("%s: %s at /%s", base, m.name, joinPtr(p)))
+			}
+			// hostile strings and keys; one with a control character gets a twin without it (K13)
+			for _, kind := range []string{"hostile-string", "hostile-key"} {
+				h := lp.Pick(rng, hostileStrings)
+				mk := func(h string) []byte {
+					var c any
+					if kind == "hostile-string" {
+						c = setAt(cloneJSON(root), p, h, false)
+					} else {
+						c = renameKeyAt(cloneJSON(root), p, h)
+					}
+					b, _ := json.Marshal(c)
+					return b
+				}
+				b := mk(h)
+				if b == nil {
+					continue
+				}
+				var twin []byte
+				if hasControl(h) {
+					twin = mk(stripControl(h))
+				}
+				c11Judge(r, b, twin, fmt.Sprintf("%s: %s %q at /%s", base, kind, h, joinPtr(p)))
 			}
 		}
 		// byte-level: truncations
 		for i := 0; i < 6; i++ {
 			cut := rng.Intn(len(data) + 1)
-			c11Judge(r, data[:cut], fmt.Sprintf("%s: truncated at byte %d", base, cut))
+			c11Judge(r, data[:cut], nil, fmt.Sprintf("%s: truncated at byte %d", base, cut))
 		}
 	}
 	for i := 0; i < r.N(300, 5000); i++ {
@@ -276,7 +297,7 @@ func c11(r *lp.Run) {
 		for j := range b {
 			b[j] = lp.Pick(rng, []byte("{}[]:,\"'-#&*!|>%@`\n \topenapi3.0$ref\\x00\xff"))
 		}
-		c11Judge(r, b, fmt.Sprintf("random bytes %q", b))
+		c11Judge(r, b, nil, fmt.Sprintf("random bytes %q", b))
 	}
 	// the modelled components, tied in this run too: path keys and reference chains against the Lean models
 	for _, k := range hostileStrings {
@@ -297,15 +318,49 @@ func c11(r *lp.Run) {
 			r.Case("refs", c.line(), out, "c11-refchain:"+strings.SplitN(out, " ", 2)[0], true)
 		}
 	}
+	// past failures and witnesses of known classes
+	for _, o := range corpusObjs("C11") {
+		if d, ok := o["document"].(string); ok {
+			c11Judge(r, []byte(d), nil, fmt.Sprint(o["what"]))
+		}
+	}
 	// deep nesting
 	for _, depth := range []int{100, 400} {
 		s := `{"openapi":"3.0.3","info":{"title":"t","version":"1"},"paths":{},"components":{"schemas":{"D":` + strings.Repeat(`{"type":"array","items":`, depth) + `{"type":"string"}` + strings.Repeat("}", depth) + `}}}`
-		c11Judge(r, []byte(s), fmt.Sprintf("array schema nested %d deep", depth))
+		c11Judge(r, []byte(s), nil, fmt.Sprintf("array schema nested %d deep", depth))
+	}
+	c11Flush(r)
+}
+
+type c11Job struct {
+	data, twin []byte
+	what       string
+}
+
+var c11Queue []c11Job
+
+// c11Judge queues a document; c11Flush runs the queue on the child-process pool and judges in order.
+func c11Judge(r *lp.Run, data, twin []byte, what string) {
+	c11Queue = append(c11Queue, c11Job{append([]byte(nil), data...), twin, what})
+	if len(c11Queue) >= 2048 {
+		c11Flush(r)
 	}
 }
 
-func c11Judge(r *lp.Run, data []byte, what string) {
-	o := runGenerator(data)
+func c11Flush(r *lp.Run) {
+	jobs := c11Queue
+	c11Queue = nil
+	docs := make([][]byte, len(jobs))
+	for i, j := range jobs {
+		docs[i] = j.data
+	}
+	outs := runGeneratorBatch(docs, 12)
+	for i, j := range jobs {
+		c11JudgeOne(r, j.data, j.twin, j.what, outs[i])
+	}
+}
+
+func c11JudgeOne(r *lp.Run, data, twin []byte, what string, o genOutcome) {
 	r.Count("c11 "+what, "gen:"+o.kind, o.kind != "parse-err")
 	r.PropCheck()
 	doc := string(data)
@@ -320,10 +375,16 @@ func c11Judge(r *lp.Run, data []byte, what string) {
 			return
 		}
 		r.Fail(lp.PropFail{Property: "C11", What: "the generator panics", Input: in, Observed: o.msg + " @ " + o.where, Expected: "output or an error"})
+	case "fatal":
+		if cls := c11KnownFatal(what, o); cls != "" {
+			r.Known(lp.PropFail{Property: "C11", Class: cls, What: "the generator process dies (unrecoverable runtime error)", Input: in, Observed: trunc200(o.msg), Expected: "output or an error"})
+			return
+		}
+		r.Fail(lp.PropFail{Property: "C11", What: "the generator process dies (unrecoverable runtime error, e.g. stack overflow)", Input: in, Observed: trunc200(o.msg), Expected: "output or an error"})
 	case "timeout":
 		r.Fail(lp.PropFail{Property: "C11", What: "parsing/generation does not finish within 30 s", Input: in, Observed: "timeout", Expected: "output or an error"})
 	case "unparsable":
-		if cls := c02Known(o.msg, doc); cls != "" {
+		if cls := c02Known(o.msg, twin); cls != "" {
 			r.Known(lp.PropFail{Property: "C02", Class: cls, What: "the generator fails on its own unparsable template output", Input: in, Observed: trunc200(o.msg), Expected: "a package that builds, or a spec-level diagnostic"})
 			return
 		}
@@ -331,6 +392,24 @@ func c11Judge(r *lp.Run, data []byte, what string) {
 	}
 }
 
+// K16: two allOf members that both declare a property referring back to the allOf schema
+func c11KnownFatal(what string, o genOutcome) string {
+	if strings.HasPrefix(what, "K16 witness") && strings.Contains(o.msg, "stack overflow") && strings.Contains(o.msg, "merge") {
+		return "K16"
+	}
+	return ""
+}
+
 func c11KnownPanic(o genOutcome) string { return "" }
 
-func c02Known(msg, doc string) string { return "" }
+// c02Known: K13 — the same document with the control characters of the one hostile string replaced
+// generates parsable code (or is refused with a diagnostic)
+func c02Known(msg string, twin []byte) string {
+	if twin == nil {
+		return ""
+	}
+	if o := runGeneratorBatch([][]byte{twin}, 1)[0]; o.kind != "unparsable" && o.kind != "panic" && o.kind != "timeout" && o.kind != "fatal" {
+		return "K13"
+	}
+	return ""
+}
